@@ -30,7 +30,7 @@ RULE = ('the empty dendrogram (one leaf); all merge orders of dendrograms over n
         '0..n+1 x return_counts for n <= 4; for n >= 5 a SAMPLE per dendrogram (2 + 7 cut_straight, 4 cut_balanced, 2 + 3 aggregate '
         'combinations). Dendrograms with an inversion are sent too (known finding F24). Metrics x {uniform, degree} x normalized on: all '
         'graphs of 3 nodes with loops, sampled digraphs, structured weighted (di)graphs n <= 9, every non-empty pattern on 2 nodes, '
-        'empty graphs (errors compared), rank-one matrices outer(r, c) n = 2..4 (mutual information 0), weights that are not float32 '
+        'structured graphs with 10-16 nodes, empty graphs (errors compared), rank-one matrices outer(r, c) n = 2..4 (mutual information 0), weights that are not float32 '
         'numbers or exceed 2^24, dendrograms of Paris. A cut/aggregation case is non-trivial when the function returns and the result '
         'has more than one and fewer than n clusters; a metric case when the graph has at least two edges; distinct = distinct '
         '(function, dendrogram, options, graph)')
@@ -38,9 +38,9 @@ ASSUMPTIONS = ['np.argsort(-sizes) returns a permutation sorting the sizes in no
                'np.sort / np.lexsort sort; scipy csr construction, A + A.T, diags, dot are the substrate',
                'float64 rounding of the metrics is outside the theorems (which are over the rationals / reals): values are '
                'compared within 1e-9 (1 + |x|); tree_sampling_divergence: the bits of the model\'s Float value are decoded and '
-               'compared within the same tolerance, not bit for bit',
+               'compared within 1e-9 (1 + |x|) + 2e-14 / max(mutual information, 1e-10), not bit for bit',
                'the theorems about the count, the threshold and return_dendrogram=True of cut_straight assume heights that never '
-               'decrease towards the root; the executable specification does not (known finding F24 on inputs with an inversion)',
+               'decrease towards the root; the executable specification does not (known findings F24b, F24c on inputs with an inversion)',
                "a self-loop's smallest cluster is the first merge containing its node (clusters = merges of the dendrogram): the "
                'definition was written to agree with the code on loops; the property text read literally would charge size 1']
 
@@ -118,10 +118,15 @@ def case_straight(d, n, k, thr, srt, ret, mono=None):
     return c
 
 
-def case_balanced(d, n, m, srt, ret):
+def case_balanced(d, n, m, srt, ret, omitted=False):
+    """`omitted`: call with the dendrogram only (the defaults max_cluster_size=20, sort_clusters=True,
+    return_dendrogram=False are then what `m`, `srt`, `ret` must be)"""
     from sknetwork.hierarchy import cut_balanced
     dt = dd.enc_dendro(d)
-    impl = _call(lambda: _enc_cut(cut_balanced(d.copy(), max_cluster_size=m, sort_clusters=srt, return_dendrogram=ret), ret))
+    if omitted:
+        impl = _call(lambda: _enc_cut(cut_balanced(d.copy()), False))
+    else:
+        impl = _call(lambda: _enc_cut(cut_balanced(d.copy(), max_cluster_size=m, sort_clusters=srt, return_dendrogram=ret), ret))
     run = 'c08.cut_balanced %s %d %s %s' % (dt, m, enc_bool(srt), enc_bool(ret))
     spec = None
     nontriv = False
@@ -132,16 +137,20 @@ def case_balanced(d, n, m, srt, ret):
         nontriv = 1 < kk < n
     sig = {'entry': 'cut_balanced', 'return_dendrogram': ret, 'max_cluster_size': 'n' if m == n else ('two' if m == 2 else 'other')}
     desc = {'f': 'cut_balanced', 'dendrogram': _ddesc(d), 'max_cluster_size': m, 'sort_clusters': srt, 'return_dendrogram': ret}
-    c = Case(('balanced', dt, m, srt, ret), sig, run, impl, spec, nontriv, desc, canon='labels')
+    if omitted:
+        sig['defaults'] = True
+        desc['omitted'] = True
+    c = Case(('balanced', dt, m, srt, ret, omitted), sig, run, impl, spec, nontriv, desc, canon='labels')
     c.tol = (2 <= m <= n)
     return c
 
 
-def case_aggregate(d, n, k, cnt):
+def case_aggregate(d, n, k, cnt, omitted=False):
+    """`omitted`: call with the dendrogram only (defaults n_clusters=2, return_counts=False)"""
     from sknetwork.hierarchy import aggregate_dendrogram
 
     def f():
-        out = aggregate_dendrogram(d.copy(), n_clusters=k, return_counts=cnt)
+        out = aggregate_dendrogram(d.copy()) if omitted else aggregate_dendrogram(d.copy(), n_clusters=k, return_counts=cnt)
         if cnt:
             a, c = out
             ctok = enc_list(c)
@@ -160,7 +169,10 @@ def case_aggregate(d, n, k, cnt):
         spec = 'c08.spec_agg %s %d %s %s' % (dt, k, at, ctok)
     sig = {'entry': 'aggregate_dendrogram', 'return_counts': cnt, 'n_clusters': _kclass(k, n)}
     desc = {'f': 'aggregate_dendrogram', 'dendrogram': _ddesc(d), 'n_clusters': k, 'return_counts': cnt}
-    c = Case(('aggregate', dt, k, cnt), sig, run, impl, spec, impl.startswith('ok') and 1 < k < n, desc)
+    if omitted:
+        sig['defaults'] = True
+        desc['omitted'] = True
+    c = Case(('aggregate', dt, k, cnt, omitted), sig, run, impl, spec, impl.startswith('ok') and 1 < k < n, desc)
     c.tol = (1 <= k <= n)
     return c
 
@@ -220,7 +232,8 @@ def cases_metrics(a, d, n, gname=''):
                 if norm:
                     spec = 'c08.spec_range %s' % (enc_rat(Fraction(v)) if math.isfinite(v) else '2')
                 else:
-                    spec = 'c08.spec_nonneg %s' % (enc_rat(Fraction(v)) if math.isfinite(v) else '-1')
+                    # 0 <= TSD <= mutual information (the clip of the normalised value hides the second inequality)
+                    spec = 'c08.spec_tsd %d %s %s %s %s' % (n, mt, dt, deg, enc_rat(Fraction(v)) if math.isfinite(v) else '-1')
             c = Case(('tsd', mt, dt, weights, norm), {'entry': 'tree_sampling_divergence', 'weights': weights, 'normalized': norm},
                      run, impl, spec, nontriv,
                      {'f': 'tree_sampling_divergence', 'graph': gdesc, 'dendrogram': _ddesc(d), 'weights': weights, 'normalized': norm},
@@ -248,8 +261,10 @@ def cases_metrics(a, d, n, gname=''):
 # comparison
 # ---------------------------------------------------------------------------------------------------
 def _relabel_equal(model, impl):
-    """labels equal up to a bijection between clusters of equal size (np.argsort on ties); the reduced
-    dendrogram is compared after applying the same bijection to its leaf ids."""
+    """the two labellings are the same partition of the nodes (any renaming of the labels is accepted here: the order
+    of the labels — non-increasing sizes when sort_clusters — is checked by the spec line `sizes-not-non-increasing`,
+    and np.argsort is free on ties); the reduced dendrogram is compared after applying the same renaming to its leaf
+    ids."""
     try:
         _, ml, mr = model.split(' ')
         _, il, ir = impl.split(' ')
@@ -382,6 +397,10 @@ def cases_for_dendro(ctx, d, n, rng, full, mono):
         combos = must + rng.sample(combos, min(3, len(combos)))
     for k, cnt in combos:
         out.append(case_aggregate(d, n, k, cnt))
+    # the defaults, by omission of the arguments
+    if full or rng.random() < 0.1:
+        out.append(case_aggregate(d, n, 2, False, omitted=True))
+        out.append(case_balanced(d, n, 20, True, False, omitted=True))
     return out
 
 
@@ -422,6 +441,36 @@ def dendros(ctx, rng, quick):
         yield d, n, dd.is_mono_paths(d, n), False
 
 
+def extra_dendros(ctx, rng, quick):
+    """dendrograms with more than 20 leaves (the default max_cluster_size = 20 of cut_balanced is admissible there)
+    and dendrograms returned by Paris on weighted graphs (heights that are not dyadic numbers)."""
+    from sknetwork.hierarchy import Paris
+    for _ in range(3 if quick else 40):
+        n = rng.randint(21, 26)
+        pairs = dd.random_merge_order(rng, n)
+        d = dd.mk_dendro(pairs, dd.heights_for(rng, pairs, n, rng.choice(['distinct', 'ties', 'mono_unsorted'])), n, rng)
+        ctx.count('dendro:n>20')
+        yield d, n, dd.is_mono_paths(d, n)
+    for name, n, es, w in graphs.suite(rng, 12 if quick else 150, 3, 9, weights=[1, 2, 3, 0.7], directed_ok=False):
+        if not es:
+            ctx.count('skipped:no-edge')
+            continue
+        a = graphs.csr_from_edges(n, es, w)
+        if a.nnz == 0:
+            ctx.count('skipped:no-edge')
+            continue
+        try:
+            d = Paris(reorder=rng.random() < 0.7).fit_predict(a)
+        except Exception as e:
+            ctx.count('dendro:paris-raised:' + type(e).__name__)
+            continue
+        if dd.enc_dendro(d) is None or dd.valid_dendro(d, n) is not None:
+            ctx.count('dendro:paris-dropped')
+            continue
+        ctx.count('dendro:paris')
+        yield d, n, dd.is_mono_paths(d, n)
+
+
 def metric_inputs(ctx, rng, quick):
     """(adjacency csr, dendrogram, n, name) stream."""
     # all undirected graphs on 3 nodes (loops allowed) x all merge orders
@@ -440,15 +489,30 @@ def metric_inputs(ctx, rng, quick):
         yield a, dd.mk_dendro(pairs, dd.heights_for(rng, pairs, 3, 'ties'), 3, rng), 3, 'digraph3'
     for name, n, es, w in graphs.suite(rng, 42 if quick else 600, 3, 9, weights=[1, 1, 2, 3, 0.5]):
         if not es:
+            ctx.count('skipped:no-edge')
             continue
         a = graphs.csr_from_edges(n, es, w)
         if a.nnz == 0:
+            ctx.count('skipped:no-edge')
             continue
         pairs = dd.random_merge_order(rng, n)
         mode = rng.choice(dd.HEIGHT_MODES)
         d = dd.mk_dendro(pairs, dd.heights_for(rng, pairs, n, mode), n, rng)
         ctx.count('metric-graph:' + name.rstrip('0123456789'))
         yield a, d, n, name
+    # larger graphs
+    for name, n, es, w in graphs.suite(rng, 6 if quick else 80, 10, 16, weights=[1, 2, 3, 0.5]):
+        if not es:
+            ctx.count('skipped:no-edge')
+            continue
+        a = graphs.csr_from_edges(n, es, w)
+        if a.nnz == 0:
+            ctx.count('skipped:no-edge')
+            continue
+        pairs = dd.random_merge_order(rng, n)
+        d = dd.mk_dendro(pairs, dd.heights_for(rng, pairs, n, rng.choice(dd.HEIGHT_MODES)), n, rng)
+        ctx.count('metric-graph:n>=10')
+        yield a, d, n, 'large-' + name
     # the smallest admissible size: every non-empty matrix pattern on 2 nodes, unit and mixed weights
     d2 = np.array([[0, 1, 1.0, 2]], dtype=float)
     # empty graphs: refused by the code and by the model (the errors are compared)
@@ -475,9 +539,11 @@ def metric_inputs(ctx, rng, quick):
     # weights that are not float32 numbers (0.1, 0.7, 1/3, 3.3) or not below 2^24
     for name, n, es, w in graphs.suite(rng, 30 if quick else 400, 2, 7, weights=[0.1, 0.7, 1.0 / 3, 3.3, float(2 ** 24 + 1), 1.0, 2.0]):
         if not es:
+            ctx.count('skipped:no-edge')
             continue
         a = graphs.csr_from_edges(n, es, w)
         if a.nnz == 0:
+            ctx.count('skipped:no-edge')
             continue
         pairs = dd.random_merge_order(rng, n)
         d = dd.mk_dendro(pairs, dd.heights_for(rng, pairs, n, rng.choice(dd.HEIGHT_MODES)), n, rng)
@@ -487,9 +553,11 @@ def metric_inputs(ctx, rng, quick):
     from sknetwork.hierarchy import Paris
     for name, n, es, w in graphs.suite(rng, 10 if quick else 100, 3, 9, weights=[1, 2], directed_ok=False):
         if not es:
+            ctx.count('skipped:no-edge')
             continue
         a = graphs.csr_from_edges(n, es, w)
         if a.nnz == 0:
+            ctx.count('skipped:no-edge')
             continue
         try:
             d = Paris().fit_predict(a)
@@ -526,9 +594,10 @@ def cases_from_desc(desc):
     if f == 'cut_straight':
         return [case_straight(d, n, desc.get('n_clusters'), thr, desc.get('sort_clusters', True), desc.get('return_dendrogram', False))]
     if f == 'cut_balanced':
-        return [case_balanced(d, n, desc['max_cluster_size'], desc.get('sort_clusters', True), desc.get('return_dendrogram', False))]
+        return [case_balanced(d, n, desc['max_cluster_size'], desc.get('sort_clusters', True), desc.get('return_dendrogram', False),
+                              omitted=desc.get('omitted', False))]
     if f == 'aggregate_dendrogram':
-        return [case_aggregate(d, n, desc['n_clusters'], desc.get('return_counts', False))]
+        return [case_aggregate(d, n, desc['n_clusters'], desc.get('return_counts', False), omitted=desc.get('omitted', False))]
     if f in ('dasgupta_cost', 'dasgupta_score', 'tree_sampling_divergence'):
         a = sparse.csr_matrix(np.array(desc['graph']['dense'], dtype=float))
         return [c for c in cases_metrics(a, d, n) if c.desc['f'] == f and c.desc['weights'] == desc['weights']
@@ -542,6 +611,10 @@ def build_cases(ctx):
     cases = corpus_cases(ctx)
     for d, n, mono, full in dendros(ctx, rng, quick):
         cases += cases_for_dendro(ctx, d, n, rng, full, mono)
+    for d, n, mono in extra_dendros(ctx, rng, quick):
+        cases += cases_for_dendro(ctx, d, n, rng, False, mono)
+        cases.append(case_balanced(d, n, 20, True, False, omitted=True))
+        cases.append(case_aggregate(d, n, 2, False, omitted=True))
     for a, d, n, name in metric_inputs(ctx, rng, quick):
         cases += cases_metrics(a, d, n, name)
     return cases
